@@ -47,6 +47,10 @@ spec fn markup_post<'i>(pre: ReaderState, rem: Seq<u8>, post: ReaderState, rem2:
     // events handed out are well-formed values: their accessors cannot panic (C03)
     &&& r matches Ok(ev) ==> ev_wf(ev)
     &&& stack_effect(pre, post, r)
+//@if encoding
+    // C17: the encoding changes only by an XML declaration, and only if it may still be refined
+    &&& post.encoding == decl_refines(pre.encoding, r)
+//@endif
     &&& if fault {
             // an I/O error: no event, position inside the construct
             &&& pre.offset <= post.offset <= pre.offset + rem.len()
@@ -106,6 +110,9 @@ spec fn io_fail<'i>(pre: ReaderState, rem: Seq<u8>, m: ReaderState, r: core::res
     &&& pre.offset <= m.offset <= pre.offset + rem.len()
     &&& m.last_error_offset <= m.offset
     &&& !(m.state is InsideMarkup) && !(m.state is InsideEmpty)
+//@if encoding
+    &&& bom_refines(pre.encoding, m.encoding)
+//@endif
 }
 
 /// reading character data (phase InsideText): `rem0` is the remaining input
@@ -134,6 +141,25 @@ spec fn text_post<'i>(pre: ReaderState, rem0: Seq<u8>, m: ReaderState, rem2: Seq
         }
 }
 
+//@if encoding
+/// the encoding after the byte-order-mark sniff: unchanged, or -- only if it was an implicit default or an
+/// earlier sniff -- the sniffed one
+pub open spec fn bom_refines(a: EncodingRef, b: EncodingRef) -> bool {
+    b == a || ((a is Implicit || a is BomDetected) && b is BomDetected)
+}
+//@endif
+//@if encoding
+/// the encoding of the state inside one call that started in `pre` with the sniff due to report `benc`
+pub open spec fn enc_inv(pre: ReaderState, benc: Option<u8>, cur: ReaderState) -> bool {
+    if !(cur.state is Init) && pre.state is Init { bom_step(pre.encoding, benc, cur.encoding) } else { cur.encoding == pre.encoding }
+}
+/// C17: the encoding in force after one read-event call
+pub open spec fn enc_post<'i>(pre: ReaderState, benc: Option<u8>, post: ReaderState, r: core::result::Result<Event<'i>, Error>) -> bool {
+    if pre.state is Init && !(post.state is Init) {
+        exists|e1: EncodingRef| #[trigger] bom_step(pre.encoding, benc, e1) && post.encoding == decl_refines(e1, r)
+    } else { post.encoding == decl_refines(pre.encoding, r) }
+}
+//@endif
 /// what the selected arm of the state machine does (before the final Done bookkeeping)
 #[verifier::opaque]
 spec fn arm_post<'i>(pre: ReaderState, rem: Seq<u8>, brem: Seq<u8>, m: ReaderState, rem2: Seq<u8>, r: core::result::Result<Event<'i>, Error>, fault: bool) -> bool {
@@ -143,14 +169,25 @@ spec fn arm_post<'i>(pre: ReaderState, rem: Seq<u8>, brem: Seq<u8>, m: ReaderSta
             &&& !fault && rem2 == rem
             &&& m.wf() && m.stack() == pre.stack().drop_last() && m.state is InsideText
             &&& m.offset == pre.offset && m.last_error_offset == pre.last_error_offset && m.config == pre.config
+//@if encoding
+            &&& m.encoding == pre.encoding
+//@endif
             &&& r matches Ok(Event::End(e)) && e.name@ == pre.stack().last()
         },
         ParseState::InsideMarkup => markup_post(pre, rem, m, rem2, r, fault),
         ParseState::InsideText => text_post(pre, rem, m, rem2, r, fault),
         ParseState::Init => {
+//@if encoding
+            // C17: the encoding sniffed from the first bytes replaces an implicit default only (never the one fixed by
+            // from_str); which encoding it is, is stated by the contract of XmlSource::detect_encoding
+            // `brem`: the input after the byte-order-mark sniff (which sees the first piece only, C02; a slice is one piece)
+            exists|e1: EncodingRef| #[trigger] bom_refines(pre.encoding, e1)
+                && text_post(ReaderState { state: ParseState::InsideText, encoding: e1, ..pre }, brem, m, rem2, r, fault)
+//@else
             let p1 = ReaderState { state: ParseState::InsideText, ..pre };
             // `brem`: the input after the byte-order-mark sniff (which sees the first piece only, C02; a slice is one piece)
             text_post(p1, brem, m, rem2, r, fault)
+//@endif
         },
     }
 }
